@@ -484,6 +484,15 @@ func (e *SpecEnv) selector(n *ast.SelectorExpr) Val {
 				t = st.Field(idx).Type()
 			}
 			return v
+		case types.MethodExpr:
+			// T.Method: the thunk the compiler builds for the method expression
+			m := sel.Obj().(*types.Func)
+			for fn := range e.ex.prog.All {
+				if fn.Synthetic != "" && fn.Name() == m.Name()+"$thunk" && len(fn.Params) > 0 && types.Identical(fn.Params[0].Type(), sel.Recv()) {
+					return &FuncVal{Fn: fn}
+				}
+			}
+			e.fail("no thunk found for method expression %s.%s", sel.Recv(), m.Name())
 		}
 		e.fail("method value in specification")
 	}
@@ -923,7 +932,14 @@ func findEltOffset(t, k *Term) *Term {
 			if idx != k && idx.hasBound {
 				off := Sub(idx, k)
 				if !off.hasBound {
-					if n, ok := off.IsInt(); !(ok && n == 0) {
+					// drop the constant part: j+off+1 and j+off share the base off
+					if off.Op == "+" {
+						if c, ok := off.Args[len(off.Args)-1].IsInt(); ok {
+							off = Sub(off, IntT(c))
+						}
+					}
+					if n, ok := off.IsInt(); !ok {
+						_ = n
 						found = off
 						return
 					}
@@ -959,40 +975,37 @@ func (e *SpecEnv) callFuncValue(n *ast.CallExpr, fun ast.Expr, sig *types.Signat
 	run := func(f *FuncVal) []Val {
 		return e.ex.inlineCall(nil, e.state().clone(), f.Fn, args, f.Bindings)
 	}
-	switch f := fv.(type) {
-	case *FuncVal:
-		return wrapVals(run(f))
-	case *Term:
-		ids := map[int64]bool{}
-		if fnLeaves(f, ids) && len(ids) > 0 && len(ids) <= 16 {
-			var result []Val
-			first := true
-			for id := range ids {
-				c := closureByID[int(id)]
-				if c == nil {
-					result = nil
-					break
-				}
-				r := run(c)
-				if first {
-					result, first = r, false
-				} else {
-					for k := range result {
-						result[k] = iteVal(Eq(f, FnPtr(int(id))), r[k], result[k])
-					}
-				}
-			}
-			if result != nil {
-				return wrapVals(result)
-			}
-		}
-		txt := e.ex.prog.nodeTextOf(fun)
+	txt := e.ex.prog.nodeTextOf(fun)
+	uf := func(f *Term) []Val {
 		flat := append([]*Term{f}, flatAll(args)...)
 		var rets []Val
 		for i := 0; i < sig.Results().Len(); i++ {
 			rets = append(rets, ufVal(fmt.Sprintf("fv@%s.%d", txt, i), e.resolve(sig.Results().At(i).Type()), flat...))
 		}
-		return wrapVals(rets)
+		return rets
+	}
+	var rec func(f *Term, depth int) []Val
+	rec = func(f *Term, depth int) []Val {
+		switch {
+		case f.Op == "fnp":
+			if id, ok := f.Args[0].IsInt(); ok && closureByID[int(id)] != nil {
+				return run(closureByID[int(id)])
+			}
+		case f.Op == "ite" && depth < 32:
+			x, y := rec(f.Args[1], depth+1), rec(f.Args[2], depth+1)
+			out := make([]Val, len(x))
+			for k := range x {
+				out[k] = iteVal(f.Args[0], x[k], y[k])
+			}
+			return out
+		}
+		return uf(f)
+	}
+	switch f := fv.(type) {
+	case *FuncVal:
+		return wrapVals(run(f))
+	case *Term:
+		return wrapVals(rec(f, 0))
 	}
 	e.fail("call through unsupported function value")
 	return nil
@@ -1011,4 +1024,20 @@ func fnLeaves(t *Term, out map[int64]bool) bool {
 		return fnLeaves(t.Args[1], out) && fnLeaves(t.Args[2], out)
 	}
 	return false
+}
+
+
+// tryEvalBool evaluates a clause; ok=false when it refers to something not visible here
+// (for instance a callee-local variable at a call site): such a clause is simply not assumed.
+func (e *SpecEnv) tryEvalBool(text string) (t *Term, ok bool) {
+	defer func() {
+		if r := recover(); r != nil {
+			if u, isU := r.(unsupported); isU && strings.Contains(u.msg, "not accessible here") {
+				t, ok = nil, false
+				return
+			}
+			panic(r)
+		}
+	}()
+	return e.evalBool(text), true
 }
